@@ -25,14 +25,18 @@ ENOTDIR == 20   EINVAL == 22   EROFS == 30   ENOTEMPTY == 39
 
 \* ------------------------------------------------------------------ 1. menu
 \* entries produced by the mount.Builder helpers (WithBind / WithTmpfs / WithProc[RW]) ...
-BuilderKinds == {"bdro", "bdrw", "bfro", "bfrw", "tmp", "procro", "procrw", "nest", "nestf", "noent", "bdrol", "bdros"}
+BuilderKinds == {"bdro", "bdrw", "bfro", "bfrw", "tmp", "procro", "procrw", "nest", "nestf", "noent", "bdrol", "bdros", "nestb", "nestt"}
 \* ... and hand-written mount.Mount values (public struct, accepted by container.Builder.Mounts and, through
 \* Builder.WithMount(...).Build(), by the namespace runner) with flag combinations the helpers never produce.
 \* "Declared read-only" is the MS_RDONLY bit of the entry, whatever else is set.
 HandKinds == {"hbro", "hbrox", "hfro", "hbrw", "htro"}
 Kinds == BuilderKinds \cup HandKinds
 \* the menu used where the cube of the menu size matters (3-entry tables in the model checker)
-KindsCore == {"bdros", "bdro", "bfrw", "tmp", "procro", "nest", "nestf", "noent", "bdrol", "hbro", "hbrox", "hfro", "hbrw", "htro"}
+KindsCore == {"bdros", "bdro", "bdrw", "tmp", "procro", "nest", "nestf", "nestb", "nestt", "noent", "bdrol", "hbro", "hfro", "hbrw", "htro"}
+\* (parent, child) kinds whose effect depends on the order of the table: the child is declared after its
+\* parent and sits inside it; mounted in the other order the parent covers the child.  Gen always writes
+\* these pairs with a missing-source bind (dropped by FilterNotExist) before and between them.
+NestPairs == { <<"tmp", "nest">>, <<"tmp", "nestf">>, <<"bdrw", "nestb">>, <<"bdro", "nestb">>, <<"bdrw", "nestt">>, <<"hbrw", "nest">> }
 
 BN == <<"b1", "b2", "b3">>      \* targets of directory binds
 FN == <<"f1", "f2", "f3">>      \* targets of file binds
@@ -71,6 +75,7 @@ B(api, tgt, src, ro) == [api |-> api, tgt |-> tgt, src |-> src, ro |-> ro, fst |
 H(tgt, src, fst, fl) == [api |-> "raw", tgt |-> tgt, src |-> src, ro |-> "RDONLY" \in fl, fst |-> fst, fl |-> fl]
 SrcContent(id) == IF id \in SharedSrc THEN SrcDirContent \cup { [p |-> <<"dyn">>, t |-> "d"] } ELSE SrcDirContent
 
+PrevPos(i) == IF i = 1 THEN 3 ELSE i - 1
 Entry(i, k) ==
   CASE k = "bdro"   -> B("bind",  <<BN[i]>>,      DS[i],   TRUE)
     [] k = "bdrw"   -> B("bind",  <<BN[i]>>,      DS[i],   FALSE)
@@ -84,6 +89,10 @@ Entry(i, k) ==
     [] k = "noent"  -> B("bind",  <<XN[i]>>,      MS[i],   TRUE)
     [] k = "bdrol"  -> B("bind",  <<KN[i]>>,      LS[i],   TRUE)
     [] k = "bdros"  -> B("bind",  <<VN[i]>>,      PS[i],   TRUE)
+    \* nested inside the directory bind of the previous position (cyclic): a read-only bind over its
+    \* "secretd" directory; a tmpfs over it (hides secretd/inner of the parent's source)
+    [] k = "nestb"  -> B("bind",  <<BN[PrevPos(i)], "secretd">>, DS[i],   TRUE)
+    [] k = "nestt"  -> B("tmpfs", <<BN[PrevPos(i)], "secretd">>, "tmpfs", FALSE)
     \* hand-written: plain read-only bind; read-only bind with extra restrictions but without
     \* NOSUID/PRIVATE; read-only file bind, non-recursive; writable bind with restrictions; read-only tmpfs
     [] k = "hbro"   -> H(<<HN[i]>>, DS[i],   "",      {"BIND", "RDONLY"})
@@ -481,9 +490,11 @@ OldRootGone(st, env)    == ~HostReachable(st) /\ Lookup(st, <<"old_root">>, env)
 OnlyConfigured(cfg, st, env) ==
   /\ TopNames(Tree(st, env)) = DeclNames(cfg)
   /\ \A x \in Tree(st, env) : DeclaredObject(cfg, x)
+\* a configured mask path on or above an entry's target wins over the entry (masks are applied last)
+MaskCovered(cfg, tgt) == \E i \in DOMAIN Masks(cfg) : IsPrefix(Masks(cfg)[i], tgt)
 WritableIffDeclared(cfg, st, env) ==
   LET E == Effective(cfg)
-  IN \A i \in DOMAIN E : ~DeclHidden(E, i) =>
+  IN \A i \in DOMAIN E : (~DeclHidden(E, i) /\ ~MaskCovered(cfg, E[i].tgt)) =>
         LET r == Lookup(st, E[i].tgt, env)
         IN /\ r.t # "none" /\ st.mt[r.m].at = E[i].tgt                \* the entry is mounted there
            /\ Writable(st, E[i].tgt, env) <=> ~E[i].ro
